@@ -142,6 +142,16 @@ func runCase(q ref.Pt, digest []byte, r, s *big.Int, vs []int, dHex string) stri
 			return fmt.Sprintf("bitcoin.VerifyASN1(sig=%x) = %v, reference %v", sig, got, w)
 		}
 	}
+	// degenerate inputs of the Bitcoin entry point: no bytes at all (nil and empty), a lone sighash byte, a lone 0x30
+	for _, sig := range [][]byte{nil, {}, {0x01}, {0x30}, {0x30, 0x00}} {
+		var got bool
+		if pn := lib.Try(func() { got = bitcoin.VerifyASN1(pk, dgIn, sig) }); pn != "" {
+			return fmt.Sprintf("bitcoin.VerifyASN1 panics on the %d-byte signature %x: %s", len(sig), sig, pn)
+		}
+		if got {
+			return fmt.Sprintf("bitcoin.VerifyASN1 accepts the %d-byte signature %x", len(sig), sig)
+		}
+	}
 	if !bytes.Equal(dgIn, digest) {
 		return "digest buffer modified"
 	}
